@@ -4,7 +4,10 @@
 usage: tools/seedtest.py <PID> <src_dir> [--name NAME] [--tier quick] [--skip-suite] [--checks C05,C30]
   <src_dir> holds patch.diff, demo.py, notes.md (written by an independent sub-agent, or by hand).
 
-Steps (all against /repo itself, restored afterwards with `git checkout -- .`):
+With --inplace: steps run against /repo itself, restored afterwards with `git checkout -- .` (the way a seeded change is meant
+to be tried).  Default: a scratch worktree of /repo's HEAD under /tmp with the patch applied, analysed through the VERIF_REPO
+development override of ./check, removed afterwards - so that other work using /repo at the same time is not disturbed.
+Steps:
   1. demo on the clean tree must exit 0
   2. apply patch; demo must exit != 0
   3. the pinned test suite must still pass (tools/baseline.py)
@@ -26,6 +29,7 @@ def main():
     ap.add_argument('--name'); ap.add_argument('--tier', default='quick')
     ap.add_argument('--skip-suite', action='store_true'); ap.add_argument('--checks')
     ap.add_argument('--needs', default='')
+    ap.add_argument('--inplace', action='store_true')
     a = ap.parse_args()
     name = a.name or '%s_%s' % (a.pid, os.path.basename(os.path.normpath(a.src)))
     dst = os.path.join(VERIF, 'seeded', name)
@@ -36,16 +40,25 @@ def main():
     r = sh('cd %s && /venv/bin/python %s' % (REPO, demo), env=env)
     meta['demo_clean_exit'] = r.returncode
     meta['ran'].append('demo on clean /repo -> exit %d' % r.returncode)
-    r = sh('git -C %s apply %s' % (REPO, patch))
+    TREE = REPO
+    cenv = dict(os.environ)
+    if not a.inplace:
+        TREE = '/tmp/wt_seedtest_%d' % os.getpid()
+        r = sh('git -C %s worktree add --detach %s HEAD' % (REPO, TREE))
+        assert r.returncode == 0, r.stdout
+        cenv['VERIF_REPO'] = TREE
+        meta['ran'].append('scratch worktree of /repo HEAD with the patch applied (VERIF_REPO override)')
+    env = dict(os.environ, PYTHONPATH=TREE)
+    r = sh('git -C %s apply %s' % (TREE, patch))
     if r.returncode:
         print('patch does not apply:', r.stdout); return 2
     try:
-        r = sh('cd %s && /venv/bin/python %s' % (REPO, demo), env=env)
+        r = sh('cd %s && /venv/bin/python %s' % (TREE, demo), env=env)
         meta['demo_patched_exit'] = r.returncode
         meta['demo_patched_output'] = r.stdout[-1500:]
         meta['ran'].append('demo with patch -> exit %d' % r.returncode)
         if not a.skip_suite:
-            r = sh('python3 %s/tools/baseline.py' % VERIF)
+            r = sh('python3 %s/tools/baseline.py %s' % (VERIF, TREE))
             meta['suite_with_patch'] = r.stdout.strip().splitlines()[0] if r.stdout.strip() else ''
             meta['suite_ok'] = r.returncode == 0
             meta['ran'].append('pinned test suite with patch -> %s' % meta['suite_with_patch'])
@@ -53,7 +66,7 @@ def main():
         meta['checks'] = {}
         for c in checks:
             t0 = time.time()
-            r = sh('cd %s && ./check %s --tier %s' % (VERIF, c, a.tier))
+            r = sh('cd %s && ./check %s --tier %s' % (VERIF, c, a.tier), env=cenv)
             viol = [l for l in r.stdout.splitlines() if l.startswith('VIOLATION')]
             meta['checks'][c] = {'tier': a.tier, 'exit': r.returncode, 'violation_lines': viol[:5], 'wall_s': round(time.time() - t0, 1),
                                  'tail': r.stdout.strip().splitlines()[-1:] }
@@ -62,7 +75,8 @@ def main():
             if r.returncode not in (0, 1):
                 print(r.stdout[-3000:])
     finally:
-        sh('git -C %s checkout -- .' % REPO)
+        if a.inplace: sh('git -C %s checkout -- .' % REPO)
+        else: sh('git -C %s worktree remove --force %s' % (REPO, TREE))
         # restore evidence written by the run against the patched tree
         sh('cd %s && git checkout -- evidence' % VERIF)
     meta['detected'] = any(v['exit'] == 1 and v['violation_lines'] for v in meta['checks'].values())
